@@ -235,7 +235,7 @@ def analyse(prob, cfg, r):
         kin_time = (times[i] - (times[i - 1] if i else 0.0)) if cfg["incremental"] else times[i]
         evs = ev_by_step.get(step, [])
         cum_evals = (cum_evals + len(evs)) if cfg["incremental"] else len(evs)
-        bound = sq * tol * max(100.0, float(cum_evals))
+        bound = sq * tol * max(100.0, 2.0 * cum_evals)
         # ---- non-negativity
         for nm in names:
             v = row[col["m_" + nm]]
@@ -371,7 +371,7 @@ def lib_analyse(name, cfgs, results):
         last = r["rows"][-1]
         # the clock reactant (first-order decay next to the library rate) has a closed form: judged like the families
         kc = 1.5 / LIB[name]["T"]
-        bound = math.sqrt(2) * c["tol"] * max(100.0, float(nA))
+        bound = math.sqrt(2) * c["tol"] * max(100.0, 2.0 * nA)
         clock_ok = abs(last[3] - 1e-3 * math.exp(-kc * c["T"])) <= bound
         vals.append((c, last[2], last[3], bound, clock_ok, min(row[2] for row in r["rows"][-kin.nsteps(c):])))
     probs, worst, ncmp = [], 0.0, 0
@@ -586,9 +586,9 @@ def run(ctx):
                        "bit for bit. closed: zero-order / first-order / A->B(aq)->C / A->B->C via KIN(), 4 configurations per problem over "
                        "{RK 1,2,3,6 x step_divide, CVODE order 1-5 x cvode_steps 5..500} x {equal, listed divisions of T} x incremental; every "
                        "reaction step judged: amounts >= 0, KIN_DELTA x formula = change of solution (1e-6 of inventory), TOTAL_TIME/KIN_TIME, closed "
-                       "form within sqrt(n) x tol x max(100, number of rate evaluations) [-tol is an absolute per-sub-step error bound in moles: the "
+                       "form within sqrt(n) x tol x max(100, 2 x number of rate evaluations) [-tol is an absolute per-sub-step error bound in moles: the "
                        "global error may accumulate one tol per sub-step], CVODE restart accounting from the callback trace. distinct = completed runs.")
-    ctx.assumptions += ["-tol is an absolute local (per sub-step) error bound in moles; '100 x tol' is applied as tol x max(100, number of rate "
+    ctx.assumptions += ["-tol is an absolute local (per sub-step) error bound in moles; '100 x tol' is applied as tol x max(100, 2 x number of rate "
                         "evaluations) x sqrt(number of reactants) so that step-count accumulation (e.g. -cvode_order 1) is not a false alarm",
                         "runs that end with an ERROR or do not terminate within the harness time limit are counted, not judged"]
     if not ok and not ctx.violations:
